@@ -24,7 +24,7 @@ def sink_lists(res, rnd, cases):
 
 INFO, run, replay = sessprop.make(
     'C11', ['out.cmd*', 'final.ctrl.matchers', 'final.ctrl.current', 'final.ctrl.all', 'final.ctrl.pause'],
-    ['Proofs/ControllerProofs.v', 'Proofs/SessionProofs.v'],
+    ['Proofs/ControllerProofs.v', 'Proofs/SessionProofs.v', 'Proofs/ListRuns.v'],
     ['theorems are about WD.Session.scan_matching / show_messages; tied to Controller.list_command/_get_matching/show_messages by sessions with list commands (matcher absent/present, caps absent, 0, 1.., negative, malformed, repeated) with and without a selected connection, comparing every printed line and the state afterwards'],
     'C11_list_exact / C11_readonly', gen, nontriv,
     'generated sessions with `list [matcher] [~ N]` commands between lines and after EOF (caps 0,1,2,3,5,10,1000,-1,malformed), connection selection commands mixed in; plus open/message/close sequences on the connection-id interface with connection/list commands (connections without any recorded message); non-trivial = at least two list commands; distinct by input',
